@@ -238,7 +238,7 @@ def execute(scenario):
         result.probe("path-rewritten-between-two-reads")
     fs.store("data.ods", data)
     with simfs.Seams(fs):
-        status, value = lib.call(lambda: [list(row) for row in rowio.ods_rows("data.ods", sheet)])
+        status, value = lib.call(lambda: lib.collect_rows(rowio.ods_rows("data.ods", sheet)))
     history.add("client", "ods_rows", {"sheet": sheet, "status": status,
                                        "value": value if status == "ok" else lib.error_summary(value)})
     wanted = logical[sheet - 1] if sheet <= len(logical) else None
